@@ -31,7 +31,9 @@ def load(path: str | os.PathLike, format: str | None = None) -> _core.Model:
     # by doing memory mapping directly.
     proto = onnx.load(path, format=format, load_external_data=False)
     model = serde.deserialize_model(proto)
-    base_dir = os.path.dirname(path)
+    # A bare file name has an empty dirname; use "." so that the base directory is
+    # never empty (an empty base directory disables the external data containment checks).
+    base_dir = os.path.dirname(path) or "."
     # Set the base directory for external data to the directory of the ONNX file
     # so that relative paths are resolved correctly.
     _external_data.set_base_dir(model.graph, base_dir)
